@@ -250,6 +250,11 @@ Section WithSerialize.
         | None => None
         | Some v => if is_none v || (top && is_unset_test env x v) then Some (v, []) else eval_se env body
         end
+    | ENotNone x body =>
+        match assoc x env with
+        | None => None
+        | Some v => if is_none v then Some (PNone, []) else eval_se env body
+        end
     | EComp item elt x =>
         match assoc x env with
         | Some (PList l) =>
@@ -266,6 +271,21 @@ Section WithSerialize.
     | (k, dv) :: r =>
         match eval_se env dv, eval_dict env r with
         | Some (v, _), Some o => Some ((k, v) :: o) | _, _ => None end
+    end.
+
+  (* meaning of the custom-operation expression: as ser_arg, the outermost level ([d0]) always guarded *)
+  Fixpoint cu_arg (f : string) (t : gtype) (nl d0 : bool) (v : pyval)
+    : option (pyval * list (string * pyval)) :=
+    match t with
+    | TNonNull t' => cu_arg f t' false d0 v
+    | TNamed _ => if (nl || d0) && is_none v then Some (PNone, []) else Some (ser f v, [(f, v)])
+    | TList t' =>
+        if (nl || d0) && is_none v then Some (PNone, []) else
+        match v with
+        | PList l => option_map (fun rs => (PList (map fst rs), List.concat (map snd rs)))
+                                (map_opt (cu_arg f t' true false) l)
+        | _ => None
+        end
     end.
 
   (* what the expression is meant to compute: serialize applied to every non-None occurrence of the scalar
